@@ -52,7 +52,7 @@ func genC08(t *rapid.T) C08Case {
 			Failing:  rapid.IntRange(0, 3).Draw(t, "failing") == 0,
 			Custom:   true, Consts: true, Aliases: true, BoolW: 8,
 		}}
-		tr := wrapRoot(g.Expr(rootTy(t), g.Depth))
+		tr := wrapRoot(g.Program(rootTy(t)))
 		fixEmptyLists(tr)
 		trees = append(trees, tr)
 		all.Kids = append(all.Kids, tr)
